@@ -4,7 +4,6 @@ from __future__ import annotations
 
 import ast
 import contextlib
-import gc
 import inspect
 import io
 import warnings
@@ -17,6 +16,7 @@ SETTINGS = {"missing_f": True, "use_fstrings": True, "unused_variable": True, "t
 REAL_CODE = {"unused_comp": "unused_variable"}     # abstract kind -> error code it is reported under
 OPTIONS = {"maximum_positional_args": 2}
 FIXABLE = set(SETTINGS)
+warnings.filterwarnings("ignore", message="coroutine .* was never awaited")   # the state before a missing_await fix
 
 PRELUDE = '''def g3(a: int, b: int, c: int) -> tuple[int, int, int]:
     return (a, b, c)
@@ -133,7 +133,6 @@ def _behaviour(src: str, name: str) -> Any:
                     return ("ok", "<suspended>")
                 except StopIteration as stop:
                     r = stop.value
-            gc.collect()
         return ("ok", r)
     except Exception as exc:  # noqa: BLE001
         return ("raised", type(exc).__name__)
